@@ -47,6 +47,20 @@
    RetainKeepsNewer: FALSE = RetainOnly drops every entry not named (tree at 2c5b947);
    TRUE = entries newer than every named id are kept (store family's repair of #28).
 
+   Overlapping publications: finishSnapshotAsync runs on its own goroutine per checkpoint, so the job
+   snapshot write of checkpoint n can still be in flight when checkpoint n+1 completes and is
+   published. PubWrite(t) takes ANY task; a task older than the newest published checkpoint is
+   SUPERSEDED: it replaces nothing, removes nothing, announces nothing - but a superseded SAVEPOINT
+   still gets its artifact (its id was handed out); its own job snapshot file goes afterwards.
+   SpHold = TRUE is a generation directive: the savepoint's write is held until a newer checkpoint has
+   been published (every generated behaviour then has the overlap).
+
+   Savepoint chains (Gens = 2): a Restore into the same worker count that is not the last generation's
+   does not end the behaviour: the job started from savepoint n keeps running (checkpoint ids continue
+   above n, the operators' lists start with the one entry n they were opened from), takes further
+   checkpoints and a savepoint of its own, is wiped and restored again - every savepoint, also one
+   taken by a job that was itself started from a savepoint, restores ITS OWN cut.
+
    A file is a record [o, k, id, ev]; its content (`ev`, the events whose effects it holds) is
    part of its name because table and WAL files are immutable. The checkpoints document of
    operator o is ck[o] (RetainOnly+Save and Add+Save are single steps here; their inner
@@ -61,8 +75,10 @@ CONSTANTS NOps,            \* operators (= workers) of the running job
           RestoreNs,       \* operator counts a restore may choose from
           Dev_ListLatest,  \* DESIGN 7 #23
           RetainKeepsNewer,
-          SpAfter,         \* the savepoint is requested only after checkpoint SpAfter has been published (0 for
-                           \* exhaustive runs; generation spreads the request over the job's life with it)
+          SpAfter,         \* the savepoint is requested only after SpAfter checkpoints of this generation's job have been
+                           \* published (0 for exhaustive runs; generation spreads the request over the job's life with it)
+          SpHold,          \* generation directive: the savepoint's snapshot write waits until a newer checkpoint is published
+          Gens,            \* savepoint generations: 1 = savepoint, wipe, restore; 2 = the restored job goes on to a second one
           MaxLen           \* behaviour length bound (generation; large for exhaustive runs)
 
 VARIABLES delivered,  \* events 1..delivered have been applied (event e by operator Owner(e))
@@ -84,15 +100,16 @@ VARIABLES delivered,  \* events 1..delivered have been applied (event e by opera
           cut,        \* [id -> delivered at the barrier]  (ghost: the cut of checkpoint id)
           taken,      \* [Ops -> [id -> Entry]]            (ghost: operator o's DKV checkpoint id as taken)
           phase,      \* "run" | "wiped" | "restored"
-          restored,   \* result of Restore
+          restored,   \* result of the last Restore (n = 0: none yet)
+          gen,        \* savepoint generation: 1 = the first job, 2 = the job started from the first savepoint
           hist
 
 vars == <<delivered, mem, l0, deep, ntab, nwal, ck, work, nflush, ncompact, nextId, pending, pubq,
           completed, jobFiles, retq, nsp, nspErr, nbusy, spId, spStage, spNext, spOrd, spFiles, spDocs, cut, taken,
-          phase, restored, hist>>
+          phase, restored, gen, hist>>
 view == <<delivered, mem, l0, deep, ntab, nwal, ck, work, nflush, ncompact, nextId, pending, pubq,
           completed, jobFiles, retq, nsp, nspErr, nbusy, spId, spStage, spNext, spOrd, spFiles, spDocs, cut, taken,
-          phase, restored>>
+          phase, restored, gen>>
 
 Ops == 1..NOps
 Ev  == 1..MaxEv
@@ -133,6 +150,7 @@ Init ==
   /\ taken = [o \in Ops |-> [i \in 1..MaxCkpt |-> NoEntry]]
   /\ phase = "run"
   /\ restored = [ok |-> FALSE, n |-> 0, ev |-> {}, cursor |-> 0, N |-> 0]
+  /\ gen = 1
   /\ hist = <<>>
 
 Log(r) == hist' = Append(hist, r)
@@ -156,7 +174,7 @@ Ev1 ==
   /\ delivered' = delivered + 1
   /\ mem' = [mem EXCEPT ![Owner(delivered + 1)] = @ \cup {delivered + 1}]
   /\ Log([a |-> "Ev", e |-> delivered + 1, o |-> Owner(delivered + 1)])
-  /\ UNCHANGED <<l0, deep, ntab, nwal, ck, work, nflush, ncompact, JobVars, nsp, nspErr, nbusy, SpVars, cut, taken, phase, restored>>
+  /\ UNCHANGED <<l0, deep, ntab, nwal, ck, work, nflush, ncompact, JobVars, nsp, nspErr, nbusy, SpVars, cut, taken, phase, restored, gen>>
 
 Flush(o) ==
   /\ phase = "run" /\ mem[o] # {} /\ nflush < MaxFlush
@@ -167,7 +185,7 @@ Flush(o) ==
   /\ ntab' = [ntab EXCEPT ![o] = @ + 1]
   /\ nflush' = nflush + 1
   /\ Log([a |-> "Flush", o |-> o])
-  /\ UNCHANGED <<delivered, deep, nwal, ck, ncompact, JobVars, nsp, nspErr, nbusy, SpVars, cut, taken, phase, restored>>
+  /\ UNCHANGED <<delivered, deep, nwal, ck, ncompact, JobVars, nsp, nspErr, nbusy, SpVars, cut, taken, phase, restored, gen>>
 
 Compact(o) ==
   /\ phase = "run" /\ l0[o] # <<>> /\ ncompact < MaxCompact
@@ -178,7 +196,7 @@ Compact(o) ==
   /\ ntab' = [ntab EXCEPT ![o] = @ + 1]
   /\ ncompact' = ncompact + 1
   /\ Log([a |-> "Compact", o |-> o])
-  /\ UNCHANGED <<delivered, mem, nwal, ck, nflush, JobVars, nsp, nspErr, nbusy, SpVars, cut, taken, phase, restored>>
+  /\ UNCHANGED <<delivered, mem, nwal, ck, nflush, JobVars, nsp, nspErr, nbusy, SpVars, cut, taken, phase, restored, gen>>
 
 -----------------------------------------------------------------------------
 (* checkpoint coordination *)
@@ -200,8 +218,14 @@ OpCkptAll(n) ==
   /\ work' = work \cup {EntryNow(o, n).wal : o \in Ops} \cup {DocFile(o) : o \in Ops}
   /\ nwal' = [o \in Ops |-> nwal[o] + 1]
 
-\* one id stays reserved for the savepoint request so that every behaviour can reach it
-IdsLeft == MaxCkpt - nextId - (IF nsp = 0 THEN 1 ELSE 0)
+\* ids stay reserved for what every behaviour must be able to reach: the savepoint request of this and of
+\* every later generation and, under SpHold, the checkpoint that overtakes each of them
+SpReqId == IF pending.sp THEN pending.id
+           ELSE IF \E t \in pubq : t.sp THEN (CHOOSE t \in pubq : t.sp).id ELSE 0
+NeedOver == SpHold /\ (nsp = 0 \/ (SpReqId # 0 /\ nextId = SpReqId))   \* the overtaking checkpoint is still to be started
+Future == (Gens - gen) * (IF SpHold THEN 2 ELSE 1) + (IF nsp = 0 THEN 1 ELSE 0) + (IF NeedOver THEN 1 ELSE 0)
+\* a tick that starts a checkpoint: the overtaker itself, or an id nothing else needs
+TickMay == IF nsp = 1 /\ NeedOver THEN MaxCkpt - nextId >= Future ELSE MaxCkpt - nextId - 1 >= Future
 
 Tick ==
   /\ phase = "run"
@@ -209,15 +233,16 @@ Tick ==
      THEN /\ nbusy = 0 /\ nbusy' = 1     \* one busy tick per behaviour is enough
           /\ Log([a |-> "Tick", res |-> "busy", id |-> 0])
           /\ UNCHANGED <<nextId, pending, cut>>
-     ELSE /\ IdsLeft > 0
+     ELSE /\ TickMay
           /\ StartNew(nextId + 1, FALSE)
           /\ Log([a |-> "Tick", res |-> "started", id |-> nextId + 1, cut |-> delivered])
           /\ UNCHANGED nbusy
   /\ UNCHANGED <<delivered, mem, l0, deep, ntab, nwal, ck, taken, work, nflush, ncompact, pubq, completed, jobFiles, retq,
-                 nsp, nspErr, SpVars, phase, restored>>
+                 nsp, nspErr, SpVars, phase, restored, gen>>
 
 Sp ==
-  /\ phase = "run" /\ nsp = 0 /\ completed >= SpAfter
+  /\ phase = "run" /\ nsp = 0 /\ completed >= restored.n + SpAfter
+  /\ pending.id = 0 => MaxCkpt - nextId >= Future
   /\ nsp' = 1
   /\ IF pending.id # 0
      THEN \* fold: the in-progress checkpoint is promoted, nothing is started
@@ -227,14 +252,14 @@ Sp ==
      ELSE /\ StartNew(nextId + 1, TRUE)
           /\ Log([a |-> "Sp", id |-> nextId + 1, created |-> TRUE, cut |-> delivered])
   /\ UNCHANGED <<delivered, mem, l0, deep, ntab, nwal, ck, taken, work, nflush, ncompact, pubq, completed, jobFiles, retq,
-                 nspErr, nbusy, SpVars, phase, restored>>
+                 nspErr, nbusy, SpVars, phase, restored, gen>>
 
 \* "savepoint already in-progress": an error, or the same id again - never a second checkpoint
 SpAgain ==
   /\ phase = "run" /\ pending.id # 0 /\ pending.sp /\ nspErr = 0
   /\ nspErr' = 1
   /\ Log([a |-> "SpAgain", id |-> pending.id])
-  /\ UNCHANGED <<DataVars, ck, work, JobVars, nsp, nbusy, SpVars, cut, taken, phase, restored>>
+  /\ UNCHANGED <<DataVars, ck, work, JobVars, nsp, nbusy, SpVars, cut, taken, phase, restored, gen>>
 
 \* who = SR: the runners' acknowledgements (released together), after which the barriers flow and every
 \* operator checkpoints; who = o: operator o's acknowledgement (it can only exist after that)
@@ -251,23 +276,29 @@ Ack(who) ==
                 /\ UNCHANGED pubq
         /\ Log([a |-> "Ack", who |-> who, id |-> pending.id, full |-> full])
   /\ IF who = SR THEN OpCkptAll(pending.id) ELSE UNCHANGED <<ck, taken, work, nwal>>
-  /\ UNCHANGED <<delivered, mem, l0, deep, ntab, nflush, ncompact, nextId, completed, jobFiles, retq, nsp, nspErr, nbusy, SpVars, cut, phase, restored>>
+  /\ UNCHANGED <<delivered, mem, l0, deep, ntab, nflush, ncompact, nextId, completed, jobFiles, retq, nsp, nspErr, nbusy, SpVars, cut, phase, restored, gen>>
 
-\* finishSnapshotAsync up to (not including) the artifact; tasks are taken in id order (overlapping
-\* publications in any order are C13's subject)
-PubWrite ==
-  /\ phase = "run" /\ pubq # {}
-  /\ LET t == CHOOSE x \in pubq : \A y \in pubq : x.id <= y.id
+\* finishSnapshotAsync up to (not including) the artifact. Every completed checkpoint is published by its own
+\* goroutine: the writes finish in ANY order. A task older than the newest published checkpoint is superseded
+\* ("obsolete on arrival"): it replaces nothing, removes nothing and announces nothing; its own file is removed
+\* again - for a savepoint only after the artifact has been built from it.
+PubWrite(t) ==
+  /\ phase = "run" /\ t \in pubq
+  /\ (SpHold /\ t.sp) => completed > t.id
+  /\ LET sup == t.id < completed
      IN /\ pubq' = pubq \ {t}
-        /\ jobFiles' = (jobFiles \ {completed}) \cup {t.id}
-        /\ retq' = IF completed # 0 THEN Append(retq, [id |-> t.id, todo |-> Ops]) ELSE retq
-        /\ completed' = t.id
+        /\ IF sup
+           THEN /\ jobFiles' = IF t.sp THEN jobFiles \cup {t.id} ELSE jobFiles
+                /\ UNCHANGED <<retq, completed>>
+           ELSE /\ jobFiles' = (jobFiles \ {completed}) \cup {t.id}
+                /\ retq' = IF completed # 0 THEN Append(retq, [id |-> t.id, todo |-> Ops]) ELSE retq
+                /\ completed' = t.id
         /\ IF t.sp
            THEN /\ spId' = t.id /\ spStage' = "copy" /\ spNext' = 1 /\ spOrd' = t.ord
                 /\ UNCHANGED <<spFiles, spDocs>>
            ELSE UNCHANGED SpVars
-        /\ Log([a |-> "PubWrite", id |-> t.id, sp |-> t.sp, cut |-> cut[t.id], retain |-> completed # 0])
-  /\ UNCHANGED <<DataVars, ck, work, nextId, pending, nsp, nspErr, nbusy, cut, taken, phase, restored>>
+        /\ Log([a |-> "PubWrite", id |-> t.id, sp |-> t.sp, cut |-> cut[t.id], retain |-> ~sup /\ completed # 0, sup |-> sup])
+  /\ UNCHANGED <<DataVars, ck, work, nextId, pending, nsp, nspErr, nbusy, cut, taken, phase, restored, gen>>
 
 Kept(doc, n) == SelectSeq(doc, LAMBDA e : e.id = n \/ (RetainKeepsNewer /\ e.id > n))
 
@@ -283,7 +314,7 @@ Retain(o) ==
         /\ retq' = IF retq[1].todo = {o} THEN Tail(retq)
                    ELSE [retq EXCEPT ![1].todo = @ \ {o}]
         /\ Log([a |-> "Retain", o |-> o, id |-> n, late |-> Latest(ck[o]).id # n])
-  /\ UNCHANGED <<DataVars, nextId, pending, pubq, completed, jobFiles, nsp, nspErr, nbusy, SpVars, cut, taken, phase, restored>>
+  /\ UNCHANGED <<DataVars, nextId, pending, pubq, completed, jobFiles, nsp, nspErr, nbusy, SpVars, cut, taken, phase, restored, gen>>
 
 -----------------------------------------------------------------------------
 (* the savepoint artifact *)
@@ -298,7 +329,9 @@ SpCopyOp(o) ==
          ok == e # NoEntry /\ EntryFiles(e) \subseteq work
          last == spNext = NOps
          jobOk == spId \in jobFiles
-     IN /\ IF ok
+         done == ok /\ last /\ jobOk
+     IN /\ jobFiles' = IF done /\ spId < completed THEN jobFiles \ {spId} ELSE jobFiles
+        /\ IF ok
            THEN /\ spFiles' = spFiles \cup EntryFiles(e) \cup {DocFile(o)}
                 /\ spDocs' = [spDocs EXCEPT ![o] = ck[o]]
                 /\ spStage' = IF last THEN (IF jobOk THEN "done" ELSE "failed") ELSE "copy"
@@ -308,20 +341,21 @@ SpCopyOp(o) ==
         /\ Log([a |-> "SpCopyOp", o |-> o, id |-> spId, last |-> last, ok |-> ok /\ (last => jobOk),
                 must |-> CopyMust(o) /\ (last => jobOk),
                 docIds |-> [i \in DOMAIN ck[o] |-> ck[o][i].id]])
-  /\ UNCHANGED <<DataVars, ck, work, JobVars, nsp, nspErr, nbusy, spId, spOrd, cut, taken, phase, restored>>
+  /\ UNCHANGED <<DataVars, ck, work, nextId, pending, pubq, completed, retq, nsp, nspErr, nbusy, spId, spOrd, cut, taken, phase, restored, gen>>
 
 Wipe ==
   /\ phase = "run" /\ spStage = "done"
   /\ phase' = "wiped"
   /\ work' = {} /\ jobFiles' = {}
   /\ Log([a |-> "Wipe"])
-  /\ UNCHANGED <<DataVars, ck, nextId, pending, pubq, completed, retq, nsp, nspErr, nbusy, SpVars, cut, taken, restored>>
+  /\ UNCHANGED <<DataVars, ck, nextId, pending, pubq, completed, retq, nsp, nspErr, nbusy, SpVars, cut, taken, restored, gen>>
 
 \* LoadCheckpoint with savepointURI: RestoreCheckpointFromSavepointArtifact (copy back what the copied
 \* documents list) and then the deploy: every new operator opens DKV checkpoint spId of the documents
 \* it is handed (LoadCheckpointList looks the entry up BY ID and panics when it is missing)
 Restore(N) ==
   /\ phase = "wiped"
+  /\ gen < Gens => N = NOps            \* a chain goes on with the same worker count (checkpoints of a rescaled job: C06)
   /\ LET back(o) == LET e == Listed(spDocs[o], spId)
                     IN IF e # NoEntry /\ EntryFiles(e) \subseteq spFiles /\ DocFile(o) \in spFiles
                        THEN EntryFiles(e) \cup {DocFile(o)} ELSE {}
@@ -330,13 +364,31 @@ Restore(N) ==
          ent(o) == ById(spDocs[o], spId)
          loadOk == \A o \in Ops : ent(o) # NoEntry /\ EntryFiles(ent(o)) \subseteq w
          ok == copyOk /\ loadOk
+         goOn == ok /\ gen < Gens
      IN /\ work' = w
         /\ restored' = [ok |-> ok, n |-> spId,
                         ev |-> IF ok THEN UNION {Content(EntryFiles(ent(o))) : o \in Ops} ELSE {},
                         cursor |-> cut[spId], N |-> N]
-        /\ Log([a |-> "Restore", N |-> N, id |-> spId, cut |-> cut[spId], ok |-> ok])
-  /\ phase' = "restored"
-  /\ UNCHANGED <<DataVars, ck, JobVars, nsp, nspErr, nbusy, SpVars, cut, taken>>
+        /\ Log([a |-> "Restore", N |-> N, id |-> spId, cut |-> cut[spId], ok |-> ok, last |-> ~goOn])
+        /\ IF goOn
+           THEN \* the job started from savepoint spId is the running job now: LoadCheckpoint put checkpoint spId into
+                \* completedSnapshots (no job snapshot file in working storage) and continues the id counter; every new
+                \* operator opened entry spId of its predecessor's document (LoadCheckpointList keeps that one entry):
+                \* level list as saved, WAL replayed into the memtable; the sources resume at the cut
+                /\ phase' = "run" /\ gen' = gen + 1
+                /\ delivered' = cut[spId]
+                /\ mem' = [o \in Ops |-> ent(o).wal.ev]
+                /\ l0' = [o \in Ops |-> <<>>]
+                /\ deep' = [o \in Ops |-> ent(o).tabs]
+                /\ ck' = [o \in Ops |-> <<ent(o)>>]
+                /\ nextId' = spId /\ completed' = spId
+                /\ pending' = NoPending /\ pubq' = {} /\ jobFiles' = {} /\ retq' = <<>>
+                /\ nsp' = 0 /\ nspErr' = 0 /\ nbusy' = 0
+                /\ spId' = 0 /\ spStage' = "none" /\ spNext' = 0 /\ spOrd' = <<>> /\ spFiles' = {}
+                /\ spDocs' = [o \in Ops |-> <<>>]
+                /\ UNCHANGED <<ntab, nwal, nflush, ncompact, cut, taken>>
+           ELSE /\ phase' = "restored"
+                /\ UNCHANGED <<DataVars, ck, JobVars, nsp, nspErr, nbusy, SpVars, cut, taken, gen>>
 
 -----------------------------------------------------------------------------
 Done == phase = "restored" \/ spStage = "failed"
@@ -347,7 +399,7 @@ Next ==
      \/ \E o \in Ops : Flush(o) \/ Compact(o) \/ Retain(o) \/ SpCopyOp(o)
      \/ Tick \/ Sp \/ SpAgain
      \/ \E w \in Ops \cup {SR} : Ack(w)
-     \/ PubWrite \/ Wipe
+     \/ (\E t \in pubq : PubWrite(t)) \/ Wipe
      \/ \E N \in RestoreNs : Restore(N)
 
 Spec == Init /\ [][Next]_vars
@@ -363,11 +415,12 @@ SavepointClosed ==
      /\ \A o \in Ops : ById(spDocs[o], spId) = taken[o][spId]
 
 \* state (and timers: they live in the same DKV) and source positions restored = those of checkpoint n
+\* (every Restore: also the one a chain goes on from)
 RestoredEqualsSnap ==
-  phase = "restored" =>
+  restored.n # 0 =>
      /\ restored.ok
-     /\ restored.ev = 1..cut[spId]
-     /\ restored.cursor = cut[spId]
+     /\ restored.ev = 1..cut[restored.n]
+     /\ restored.cursor = cut[restored.n]
 
 \* a complete savepoint is complete for good: nothing the running job does later takes it apart
 \* (spFiles only grows; working-storage deletions never touch savepoint storage - by construction here,
@@ -384,8 +437,24 @@ FoldsIntoPending ==
 \* the savepoint request (when it folds) and every copy step leave the running job's world alone
 SpStep == \/ nsp' = 1 /\ nsp = 0 /\ pending.id # 0
           \/ spStage = "copy" /\ phase' = "run" /\ (spFiles' # spFiles \/ spStage' # spStage)
+\* (the one file that may go is the savepoint's OWN job snapshot when it was superseded: nothing refers to it)
 Undisturbed ==
-  [][ SpStep => UNCHANGED <<delivered, mem, l0, deep, ck, work, jobFiles, completed, retq, nextId, pubq>> ]_vars
+  [][ SpStep => /\ UNCHANGED <<delivered, mem, l0, deep, ck, work, completed, retq, nextId, pubq>>
+                /\ jobFiles' \subseteq jobFiles /\ jobFiles \ jobFiles' \subseteq {spId}
+                /\ (jobFiles' # jobFiles => spId < completed /\ spStage' = "done") ]_vars
+
+\* liveness as safety: a savepoint whose id was handed out and whose checkpoint was published either has its
+\* artifact or the copy is still under way - unless the copy genuinely could not succeed: when the artifact code
+\* came to operator o, retention (of a NEWER published checkpoint) had already dropped entry n from o's document,
+\* or a newer publication had already removed job snapshot n. "failed" is reached in no other way.
+SpFailedOnlyIfDropped ==
+  [][ (spStage = "copy" /\ spStage' = "failed") =>
+         \/ ById(ck[spOrd[spNext]], spId) = NoEntry
+         \/ spId \notin jobFiles ]_vars
+\* and whenever it could not succeed a newer checkpoint has been published (a savepoint nothing overtook is produced)
+\* (with RetainOnly as repaired; without the repair a LATE notification of an older checkpoint drops entry n: #28)
+SpProducedUnlessOvertaken ==
+  (RetainKeepsNewer /\ spStage = "failed") => completed > spId
 
 \* every published checkpoint is the state at its cut and - as long as the operators still retain it -
 \* restorable from working storage, savepoint or not
@@ -396,6 +465,7 @@ PublishedIsCut ==
                        /\ (ById(ck[o], completed) # NoEntry => EntryFiles(e) \subseteq work)
 
 TypeOK ==
+  /\ gen \in 1..Gens
   /\ delivered \in 0..MaxEv /\ nextId \in 0..MaxCkpt
   /\ spStage \in {"none", "copy", "done", "failed"}
   /\ phase \in {"run", "wiped", "restored"}
